@@ -20,11 +20,15 @@ from . import pipeline as P
 CONTENTS = ["a\\tb", "a\tb", "tab\tin\ttext", "line1\n\n\n\n\nline2", "line1\n\n\nline2\n", "trail   \nnext", "trail\t\nnext", "\n\n\n", "   \n   \n   \nx", "x" * 130, "word " * 40,
             "a\n\tindented with a tab\n\t\tmore", "a\n    indented\n\n\n    more", "quote ' and \" inside", "back\\\\slash\nnext", "{braces}", "ends with blank lines\n\n\n\n", "\n\n\nstarts with blank lines",
             "x\n" + " " * 8 + "\n" + " " * 8 + "\ny", "mixed \t \t end   "]
-PREFIXES = ["", "r", "b", "f", "rb"]
+PREFIXES = ["", "r", "b", "f", "rb", "R", "F", "rf", "fR", "U", "Rb", "B"]
 
 
 def literal(prefix, content, triple):
     """source text of a literal with exactly this content (for raw prefixes: content without backslash sequences only)"""
+    spelled = prefix
+    prefix = prefix.lower()
+    if "u" in prefix and not content.isascii():
+        return None
     if "r" in prefix and "\\" in content:
         return None
     if "f" in prefix:
@@ -37,15 +41,15 @@ def literal(prefix, content, triple):
         body = content_src if "r" in prefix else content_src.replace("\\", "\\\\").replace("\\\\t", "\\t") if False else content_src
         if "r" not in prefix:
             body = content_src.replace("\\", "\\\\")
-        return f'{prefix}"""{body}"""'
+        return f'{spelled}"""{body}"""'
     if "\n" in content:
         return None
     if "r" in prefix:
         if '"' in content_src:
             return None
-        return f'{prefix}"{content_src}"'
+        return f'{spelled}"{content_src}"'
     body = content_src.replace("\\", "\\\\").replace('"', '\\"').replace("\t", "\\t") if False else content_src.replace("\\", "\\\\").replace('"', '\\"')
-    return f'{prefix}"{body}"'
+    return f'{spelled}"{body}"'
 
 
 FRAMES = [
@@ -68,6 +72,17 @@ FRAMES = [
     "import sys\n\n\ndef m():\n    import os\n    sys.stdout.write({L} + os.sep)\n\n\nm()\n",
     "def n(a):\n    for i in a:\n        import os\n        print({L}, os.sep)\n    return a\n\n\nn([1])\n",
     "import sys\nif sys.argv:\n    import os\n    print({L})\nprint(2)\n",
+]
+
+
+# literal forms that are not one prefixed literal: adjacent literals, backslash-continued one-line quotes, control characters that
+# str.splitlines takes for line ends, pieces of f-strings that are valid code by themselves next to equal one-quoted literals
+SPECIAL_MODULES = [
+    "x = ('abc' '''x   \n  y  \nz''')\nprint(x)\n", "x = ('''x   \n  y  \nz''' 'abc')\nprint(x)\n", "y = 1\nx = ('a' f'''x{y}   \n  q\t\n''')\nprint(x)\n",
+    "x = 'abc\\\ndef   \\\n  ghi'\nprint(x)\n", "def f():\n    x = 'abc\\\ndef   \\\n  ghi'\n    return x\n\n\nprint(f())\n", "y = 2\nx = f'abc\\\n{y}   \\\n  ghi'\nprint(x)\n",
+    "x = 'a\x0cb'\nprint(x)\n", "x = 'a\x0bb' + 'c\x1cd' + 'e\x85f' + 'g\u2028h'\nprint(x)\n", "def f():\n    return ['a\x0cb', b'c\x0cd']\n\n\nprint(f())\n",
+    "def label(prefix, record, unit):\n    key = f'{prefix}_id'\n    other = f'{prefix}_id'\n    again = f'{unit}s {unit}s {unit}s'\n    return record.get('_id'), {'s': 1}, key, other, again, '0' + f'{unit}0' + f'{prefix}0'\n\n\nprint(label('a', {'_id': 3}, 'm'))\n",
+    "PAD = '0'\n\n\ndef pad(n, width_of_the_field, fill_character_for_padding):\n    return f'{n}0' + f'{n}0' + PAD * width_of_the_field + fill_character_for_padding + f'{n}0' + f'{width_of_the_field}0' + PAD\n\n\nprint(pad(1, 2, 'x'))\n",
 ]
 
 
@@ -195,7 +210,7 @@ def generated(tier, rnd):
         if l is None:
             continue
         try:
-            v = ast.literal_eval(l) if "f" not in prefix else None
+            v = ast.literal_eval(l) if "f" not in prefix.lower() else None
         except Exception:  # noqa: BLE001
             continue
         lits.append(l)
@@ -208,12 +223,12 @@ def generated(tier, rnd):
 
 def run(tier, seed):
     rnd = random.Random(seed)
-    gen = generated(tier, rnd)
+    gen = SPECIAL_MODULES + generated(tier, rnd)
     corpus = P.corpus()
     cor = rnd.sample(corpus, 150 if tier == "quick" else len(corpus))
     r1 = P.pool_map(work, gen, chunksize=8)
     r2 = P.pool_map(work, cor, chunksize=4)
-    fc_inputs = gen if tier == "thorough" else rnd.sample(gen, min(len(gen), 200))
+    fc_inputs = gen if tier == "thorough" else SPECIAL_MODULES + rnd.sample(gen, min(len(gen), 200))
     r3 = P.pool_map(work_format_code, fc_inputs, chunksize=4)
     out = []
     for name, inputs, res, space in (("c11-generated-literals", gen, r1, f"{len(gen)} modules = {len(FRAMES)} frames x literals ({len(PREFIXES)} prefixes x {len(CONTENTS)} contents x single / triple quoted, those expressible)"),
